@@ -24,14 +24,14 @@ type modSpec struct {
 }
 
 func genImportCase(r *rand.Rand) (files map[string]string, expected string, shared bool, withStd bool, feats []string) {
-	n := 2 + r.Intn(4) // modules incl. main (index 0)
+	n := 2 + r.Intn(5) // modules incl. main (index 0)
 	mods := make([]modSpec, n)
-	names := []string{"main.tsh", "alpha.tsh", "beta.tsh", "lib/gamma.tsh", "delta.tsh", "eps.tsh"}
+	names := []string{"main.tsh", "alpha.tsh", "beta.tsh", "lib/gamma.tsh", "delta.tsh", "lib/eps.tsh"}
 	indeg := make([]int, n)
 	for i := 0; i < n; i++ {
 		mods[i] = modSpec{name: names[i], konst: (i + 1) * 10, topStmt: r.Intn(2) == 0}
 		for j := i + 1; j < n; j++ {
-			if strings.HasPrefix(names[i], "lib/") { // imports are relative to the importing file; keep lib/ leaf-like
+			if strings.HasPrefix(names[i], "lib/") && !strings.HasPrefix(names[j], "lib/") { // imports are relative to the importing file: lib/ modules import lib/ modules only
 				continue
 			}
 			if r.Intn(2) == 0 || (i == 0 && j == 1) {
@@ -78,7 +78,11 @@ func genImportCase(r *rand.Rand) (files map[string]string, expected string, shar
 		if len(m.imports) > 0 {
 			sb.WriteString("import (\n")
 			for k, j := range m.imports {
-				sb.WriteString(fmt.Sprintf("\t%s \"%s\"\n", m.aliases[k], strings.TrimPrefix(names[j], "")))
+				ip := names[j]
+				if strings.HasPrefix(names[i], "lib/") { // the same file is spelled differently from inside lib/
+					ip = strings.TrimPrefix(ip, "lib/")
+				}
+				sb.WriteString(fmt.Sprintf("\t%s \"%s\"\n", m.aliases[k], ip))
 			}
 			sb.WriteString(")\n")
 		}
